@@ -52,6 +52,7 @@ let parse_events (s : string) : (ev list) * (int * char) list =
         else begin kinds := (idn, 'd') :: !kinds; Some (EvJoin (KRtsp, n_of_int idn)) end
       | ["Y"; id] -> Some (EvPlay (n_of_int (int_of_string id)))
       | ["R"; b] -> Some (EvRtp (bytes_of_token b))
+      | ["X"] -> Some EvDispose
       | ["B"; id] -> Hashtbl.replace broken (int_of_string id) (); None
       | ["P"; t; ts; p] -> Some (EvPublish { GroupMsg.rm_type = n_of_token t; GroupMsg.rm_ts = n_of_token ts; GroupMsg.rm_payload = bytes_of_token p })
       | [j; id] when String.length j = 2 && j.[0] = 'J' ->
@@ -88,6 +89,12 @@ let run_hist cfgtok evtok =
     if c.cf_record_flv then
       let recs = Stdlib.List.rev st.g_rec in
       parts @ ["rec=" ^ (if recs = [] then "-" else String.concat "/" (Stdlib.List.map (show_labels "F") recs))]
+    else parts in
+  let parts =
+    if Stdlib.List.mem EvDispose evs then
+      (* sessions still attached after the history (push sessions are not shown) *)
+      let live = Stdlib.List.filter_map (fun x -> if x.c_kind = KPush then None else Some (string_of_int (int_of_n x.c_id))) st.g_subs in
+      parts @ ["live=" ^ (if live = [] then "-" else String.concat "," live)]
     else parts in
   let parts =
     if c.cf_record_ts then
